@@ -14,6 +14,7 @@ layout; get-and-clear returns the record the device deleted, the delete request 
 the reservation obtained last before it and so do all reads in between, the final log
 is the old log plus the adversary's additions minus that record.
 """
+import os
 import struct
 
 from . import common as C
@@ -206,25 +207,9 @@ def oracle_entries(inp):
     return None
 
 
-def oracle_gac(inp):
-    dev = _dev_in(inp)
-    log0 = list(dev.log)
-    rid = inp['rid']
-    adds = [bytes.fromhex(p) for p in inp.get('plan', []) if p is not None]
-    out, ex = _run(dev, lambda ipmi: ipmi.get_and_clear_sel_entry(rid))
-    if out[0] == 'err':
-        return 'raised %r (limit %s, %d concurrent changes)' % (out[1], inp['limit'], len(adds))
-    target = next(r for r in log0 if rec_id(r) == rid) if rid not in (0,) else log0[0]
-    m = check_entry(out[1], target)
-    if m:
-        return 'returned entry is not the stored record %04x: %s' % (rid, m)
-    if dev.deleted != [target]:
-        return 'device deleted %s, returned entry is %s' % ([d.hex() for d in dev.deleted], target.hex())
-    used = [bytes.fromhex(p) for p in inp.get('plan', [])[:len(ex)] if p is not None]
-    want = [r for r in log0 + used if r is not target]
-    if dev.log != want:
-        return 'log after get-and-clear is not the old log plus concurrent additions minus the entry'
-    # trace: ... Reserve -> R ; reads of rid under R ; Delete rid under R (successful)
+def _gac_trace(ex, rid, target):
+    """the exchanges of one get_and_clear_sel_entry call: Reserve -> R, reads of rid under R that
+    produce the entry, successful Delete of rid under R; every cancelled round restarted from Reserve"""
     if not ex or ex[-1].cmd != CMD_DELETE or ex[-1].reply[:1] != b'\x00':
         return 'last request is not a successful Delete SEL Entry'
     last_res = max(i for i, x in enumerate(ex) if x.cmd == CMD_RESERVE)
@@ -248,6 +233,27 @@ def oracle_gac(inp):
     return None
 
 
+def oracle_gac(inp):
+    dev = _dev_in(inp)
+    log0 = list(dev.log)
+    rid = inp['rid']
+    adds = [bytes.fromhex(p) for p in inp.get('plan', []) if p is not None]
+    out, ex = _run(dev, lambda ipmi: ipmi.get_and_clear_sel_entry(rid))
+    if out[0] == 'err':
+        return 'raised %r (limit %s, %d concurrent changes)' % (out[1], inp['limit'], len(adds))
+    target = next(r for r in log0 if rec_id(r) == rid) if rid not in (0,) else log0[0]
+    m = check_entry(out[1], target)
+    if m:
+        return 'returned entry is not the stored record %04x: %s' % (rid, m)
+    if dev.deleted != [target]:
+        return 'device deleted %s, returned entry is %s' % ([d.hex() for d in dev.deleted], target.hex())
+    used = [bytes.fromhex(p) for p in inp.get('plan', [])[:len(ex)] if p is not None]
+    want = [r for r in log0 + used if r is not target]
+    if dev.log != want:
+        return 'log after get-and-clear is not the old log plus concurrent additions minus the entry'
+    return _gac_trace(ex, rid, target)
+
+
 def oracle_decode(inp):
     import pyipmi.sel as ps
     r = bytes.fromhex(inp['rec'])
@@ -264,7 +270,188 @@ def oracle_decode(inp):
     return None
 
 
-ORACLES = {'entries': oracle_entries, 'gac': oracle_gac, 'decode': oracle_decode}
+
+# ---------------------------------------------------------------------------
+# history stage: sequences of steps in ONE process on reused Ipmi objects (and objects created
+# after others) against ONE device whose log persists.  Client steps: entries, count, entry (by id,
+# with a reservation obtained first or relying on the default reservation 0), gac (with an adversary
+# plan for that call).  Device-side steps: 'bmc_append' (the BMC logs events), 'bmc_clear' (another
+# party clears the log), 'limit' (partial-read limit reconfigured).  Every client step is judged
+# against the log AT THAT MOMENT, which the oracle keeps itself - including the error the device is
+# expected to give (0xCB for an id that is not in the log, an empty log lists nothing, ...), so a
+# shrunk history is judged as correctly as the original.
+def _apply_sel(ipmi, c):
+    op = c['op']
+    if op == 'entries':
+        return ipmi.get_sel_entries()
+    if op == 'count':
+        return ipmi.get_sel_entries_count()
+    if op == 'gac':
+        return ipmi.get_and_clear_sel_entry(c['rid'])
+    if op == 'entry':
+        if c.get('resv'):
+            return ipmi.get_sel_entry(c['rid'], ipmi.get_sel_reservation_id())
+        return ipmi.get_sel_entry(c['rid'])          # default reservation 0
+    raise ValueError(op)
+
+
+def exec_sel_history(inp):
+    dev = SelDevice([bytes.fromhex(x) for x in inp['log']], inp['limit'], max_requests=60000)
+    objs = {}
+    for n, c in enumerate(inp['calls']):
+        op = c['op']
+        if op == 'bmc_append':
+            dev.log += [bytes.fromhex(x) for x in c['recs']]
+            dev.valid = False
+            continue
+        if op == 'bmc_clear':
+            dev.log = []
+            dev.valid = False
+            continue
+        if op == 'limit':
+            dev.limit = c['value']
+            continue
+        o = c.get('obj', 'A')
+        if o not in objs:
+            objs[o] = F.connect(dev)
+        ipmi, itf = objs[o]
+        dev.plan = [None if p is None else bytes.fromhex(p) for p in c.get('plan', [])]
+        snap = {'log': list(dev.log), 'limit': dev.limit, 'resv': dev.resv, 'valid': dev.valid,
+                'plan': list(dev.plan), 'ndel': len(dev.deleted)}
+        start = len(itf.log)
+        try:
+            out = ('ok', _apply_sel(ipmi, c))
+        except Exception as e:  # noqa
+            out = ('err', e)
+        dev.plan = []
+        yield n, c, out, itf.log[start:], snap, dev
+
+
+def _find(ref, rid):
+    if not ref:
+        return None
+    if rid == 0:
+        return 0
+    if rid == 0xffff:
+        return len(ref) - 1
+    ids = [rec_id(r) for r in ref]
+    return ids.index(rid) if rid in ids else None
+
+
+def _expect_cc(out, cc, what):
+    from pyipmi.errors import CompletionCodeError
+    if out[0] == 'err' and isinstance(out[1], CompletionCodeError) and out[1].cc == cc:
+        return None
+    return 'expected CompletionCodeError 0x%02x (%s), got %r' % (cc, what, out[1])
+
+
+def judge_sel_call(c, out, seg, snap, dev, ref):
+    """(failure class, message, new reference log) - failure class None if the step is right"""
+    op = c['op']
+    if op == 'count':
+        if out[0] == 'err' or out[1] != len(ref):
+            return 'count', 'returned %r, the log holds %d entries' % (out[1], len(ref)), ref
+    elif op == 'entries':
+        if out[0] == 'err':
+            return 'entries-raises', 'raised %r, the log holds %d entries' % (out[1], len(ref)), ref
+        v = out[1]
+        if len(v) != len(ref):
+            return 'entries-count', 'returned %d entries, the log holds %d' % (len(v), len(ref)), ref
+        for k, (e, r) in enumerate(zip(v, ref)):
+            m = check_entry(e, r)
+            if m:
+                return 'entries-content', 'entry %d: %s' % (k, m), ref
+    elif op == 'entry':
+        k = _find(ref, c['rid'])
+        if k is None:
+            m = _expect_cc(out, 0xcb, 'no such record')
+            return ('entry-absent' if m else None), m, ref
+        if not c.get('resv') and snap['limit'] not in (0xff, 16):
+            m = _expect_cc(out, 0xc5, 'partial read without a reservation')
+            return ('entry-noresv' if m else None), m, ref
+        if out[0] == 'err':
+            return 'entry-raises', 'raised %r' % (out[1],), ref
+        m = check_entry(out[1][0], ref[k])
+        if m:
+            return 'entry-content', m, ref
+        nxt = rec_id(ref[k + 1]) if k + 1 < len(ref) else 0xffff
+        if out[1][1] != nxt:
+            return 'entry-next', 'next record id %04x, the log says %04x' % (out[1][1], nxt), ref
+    elif op == 'gac':
+        rid = c['rid']
+        used = [p for p in snap['plan'][:len(seg)] if p is not None]
+        if rid == 0xffff:
+            return None, None, list(dev.log)            # 'last' under concurrent appends: not judged here
+        k = _find(ref + used if rid != 0 else ref or used, rid)
+        if _find(ref, rid) is None and not (rid == 0 and used):
+            # not in the log at any time of this call (additions carry fresh ids)
+            m = _expect_cc(out, 0xcb, 'no such record')
+            return ('gac-absent' if m else None), m, ref + used
+        if out[0] == 'err':
+            return 'gac-raises', 'raised %r' % (out[1],), ref + used
+        target = (ref + used)[k]
+        m = check_entry(out[1], target)
+        if m:
+            return 'gac-entry', 'returned entry is not the stored record: ' + m, ref + used
+        if dev.deleted[snap['ndel']:] != [target]:
+            return 'gac-deleted', 'device deleted %s, not exactly the returned entry' % [d.hex() for d in dev.deleted[snap['ndel']:]], ref + used
+        new = [r for r in ref + used if r is not target]
+        if dev.log != new:
+            return 'gac-log', 'log afterwards is not the old log plus concurrent additions minus the entry', new
+        m = _gac_trace(seg, rid, target)
+        if m:
+            return 'gac-trace', m, new
+        return None, None, new
+    return None, None, ref
+
+
+def oracle_sel_seq(inp):
+    """every client step behaves as if it were the only one, on the log as it is at that moment"""
+    ref = [bytes.fromhex(x) for x in inp['log']]
+    done = 0
+    calls = inp['calls']
+
+    def settle(upto, ref):
+        nonlocal done
+        for c in calls[done:upto]:
+            if c['op'] == 'bmc_append':
+                ref = ref + [bytes.fromhex(x) for x in c['recs']]
+            elif c['op'] == 'bmc_clear':
+                ref = []
+        done = upto
+        return ref
+    for n, c, out, seg, snap, dev in exec_sel_history(inp):
+        ref = settle(n, ref)
+        done = n + 1
+        try:
+            key, msg, ref = judge_sel_call(c, out, seg, snap, dev, ref)
+        except Exception as e:  # noqa
+            key, msg = 'unjudgeable', 'result could not be examined: %r' % (e,)
+        if key and inp.get('only_key') in (None, key):
+            return 'step %d (%s) of the sequence: %s' % (n, {k: v for k, v in c.items() if k != 'plan'}, msg), key
+        if key:
+            ref = list(dev.log)       # another failure class than the one being shrunk: resynchronise
+    return None
+
+
+def _sel_seq(inp):
+    r = oracle_sel_seq(inp)
+    return r[0] if r else None
+
+
+ORACLES = {'entries': oracle_entries, 'gac': oracle_gac, 'decode': oracle_decode, 'sel_seq': _sel_seq}
+
+
+def _safe(f):
+    def g(inp):
+        try:
+            return f(inp)
+        except Exception as e:  # noqa  (an oracle never crashes on what the implementation returned)
+            return 'the result could not be examined: %r' % (e,)
+    return g
+
+
+ORACLES = {k: _safe(v) for k, v in ORACLES.items()}
 
 
 def replay(data):
@@ -495,7 +682,108 @@ def run(ctx):
         add('chk_gac 66 %s %s' % (c_ex(ex), c_res(out, c_entry)), {'kind': 'gac-script', 'script': repr(sc)})
         D.add(('gscript', repr(sc)), True, 'nonconforming-device')
 
-    failing, errors = C.coq_cases('C12', 'Lib.Prog Model.SelIO Corr.C10 Corr.C12', terms, shard=40)
+
+    # ------------------------------------------------------------ history stage
+    def snap_dev(snap, dev, ex_name='ex'):
+        return ('chk_seldev %s %d %d %s %s %s %s %s'
+                % (c_log(snap['log']), snap['limit'], snap['resv'], C.c_bool(snap['valid']), c_plan(snap['plan']),
+                   ex_name, c_log(dev.log), c_log(dev.deleted[snap['ndel']:])))
+
+    for hno in range(5 if q else 30):
+        log = mk_log(rng, rng.choice([0, 0, 3, 5, 8]))
+        cur = list(log)
+        limit = rng.choice(limits)
+        lim_now = [limit]
+        calls = []
+
+        def client(op=None, obj=None):
+            op = op or rng.choice(['entries', 'entries', 'count', 'entry', 'gac', 'gac'])
+            c = {'op': op, 'obj': obj or rng.choice('AAB')}
+            if op in ('entry', 'gac') and not cur:
+                c['op'] = op = 'entries'
+            if op == 'entry':
+                c['rid'] = rng.choice([0, 0xffff] + [rec_id(r) for r in cur])
+                c['resv'] = True if lim_now[0] not in (0xff, 16) else rng.random() < 0.5
+            elif op == 'gac':
+                t = rng.choice(cur)
+                c['rid'] = rec_id(t)
+                adds = []
+                if rng.random() < 0.6:
+                    a = fresh()
+                    adds = [a]
+                    c['plan'] = [None] * rng.randrange(0, 3) + [a.hex()]
+                cur[:] = [r for r in cur + adds if r is not t]
+            calls.append(c)
+
+        def bmc_append():
+            recs = [fresh() for _ in range(rng.randrange(1, 4))]
+            cur.extend(recs)
+            calls.append({'op': 'bmc_append', 'recs': [r.hex() for r in recs]})
+
+        def bmc_clear():
+            del cur[:]
+            calls.append({'op': 'bmc_clear'})
+
+        for _ in range(rng.randrange(8, 16)):
+            r = rng.random()
+            if r < 0.1:
+                bmc_append()
+            elif r < 0.15:
+                bmc_clear()
+            elif r < 0.25:
+                lim_now[0] = rng.choice(limits)
+                calls.append({'op': 'limit', 'value': lim_now[0]})
+            else:
+                client()
+        # directed patterns on ONE object: a listing / count, then the log changes on the device side
+        # (emptied by another party, or filled by the BMC), then a listing again
+        for pat in range(2):
+            obj = rng.choice('AB')
+            if rng.random() < 0.5 or not cur:
+                bmc_clear()
+                client(rng.choice(['entries', 'count']), obj)
+                bmc_append()
+                client('entries', obj)
+            else:
+                client(rng.choice(['entries', 'count']), obj)
+                bmc_clear()
+                client('entries', obj)
+            client()
+        inp = {'log': [r.hex() for r in log], 'limit': limit, 'calls': calls}
+        res.evaluations += len(calls)
+        r = oracle_sel_seq(inp)
+        if r:
+            key = 'sel-history:' + r[1]
+            if key not in fails:
+                extra = {'log': inp['log'], 'limit': limit, 'only_key': r[1]}
+                seq = C.shrink_history('C12', 'sel_seq', calls, extra=extra) or calls
+                inp2 = dict(extra, calls=seq)
+                fails[key] = C.Violation(key=key, what=(_sel_seq(inp2) or r[0]) + ' [history of %d step(s)]' % len(seq),
+                                         replay={'oracle': 'sel_seq', 'input': inp2})
+        for n, c, out, seg, snap, dev in exec_sel_history(inp):
+            fmt = lambda v: '(%s, %d)' % (c_entry(v[0]), v[1])  # noqa
+            try:
+                if c['op'] == 'count':
+                    t = 'chk_count ex %s' % c_res(out, str)
+                elif c['op'] == 'entries':
+                    t = 'chk_entries ex %s' % c_res(out, lambda v: C.c_list([c_entry(e) for e in v]))
+                elif c['op'] == 'gac':
+                    t = 'chk_gac %d ex %s' % (c['rid'], c_res(out, c_entry))
+                elif c.get('resv') and seg and seg[0].cmd == CMD_RESERVE and len(seg[0].reply) == 3:
+                    R = seg[0].reply[1] | seg[0].reply[2] << 8
+                    t = ('chk_reserve (firstn 1 ex) (Ok %d) && chk_entry %d %d (tl ex) %s'
+                         % (R, c['rid'], R, c_res(out, fmt)))
+                elif c.get('resv'):
+                    t = 'false'        # the implementation did not start with Reserve SEL: model differs
+                else:
+                    t = 'chk_entry %d 0 ex %s' % (c['rid'], c_res(out, fmt))
+            except Exception:  # noqa  (a result object that cannot be printed: counts as a difference)
+                t = 'false'
+            add('(let ex := %s in %s && %s)' % (c_ex(seg), t, snap_dev(snap, dev)),
+                {'kind': 'history', 'history': hno, 'step': n, 'op': c['op'], 'obj': c.get('obj')})
+            D.add(('hist', hno, n, c['op'], c.get('rid'), snap['limit']), True, 'history ' + c['op'])
+
+    failing, errors = C.coq_cases('C12_p%d' % os.getpid(), 'Lib.Prog Model.SelIO Corr.C10 Corr.C12', terms, shard=40)
     res.mismatches = [{'case': meta[i], 'term': terms[i][:400]} for i in failing[:50]]
     res.corr_errors = errors
     res.evaluations += len(terms)
